@@ -463,7 +463,12 @@ func (f *FS) Lchown(p string, uid, gid int) error {
 	return f.meta("Lchown", p, false, Call{A: int64(uid), B: int64(gid)}, func(n *inode) { n.uid, n.gid = uid, gid })
 }
 func (f *FS) Chtimes(p string, atime, mtime time.Time) error {
-	return f.meta("Chtimes", p, true, Call{A: mtime.UnixNano()}, func(n *inode) { n.mtime = mtime })
+	// a zero time leaves the corresponding file time unchanged (os.Chtimes semantics)
+	return f.meta("Chtimes", p, true, Call{A: mtime.UnixNano()}, func(n *inode) {
+		if !mtime.IsZero() {
+			n.mtime = mtime
+		}
+	})
 }
 
 func truncateInode(n *inode, size int64) {
